@@ -156,7 +156,18 @@ class StartupRun:
                         elif fid % 4 == 3:
                             def fac(fid: int = fid) -> "OnlyKnownToTypeCheckers":  # type: ignore[name-defined]  # noqa: F821
                                 return Gen(fid)
-                        add_resource_factory(fac, a["name"], types=[TYPES[t] for t in tys], description=desc)
+                        if a.get("annot"):
+                            # the types are read off the factory's return annotation (a union for two types)
+                            import typing
+
+                            def fac(fid: int = fid) -> Any:  # noqa: F811
+                                return Gen(fid)
+
+                            fac.__annotations__["return"] = TYPES[tys[0]] if len(tys) == 1 else \
+                                typing.Union[tuple(TYPES[t] for t in tys)]
+                            add_resource_factory(fac, a["name"], description=desc)
+                        else:
+                            add_resource_factory(fac, a["name"], types=[TYPES[t] for t in tys], description=desc)
                     for t in tys:
                         self.log("pubFac", i, t, a["name"], a["fid"])
                     self.expected_events.append((tuple(tys), self.final_name(i, which, a["name"]), desc, True))
@@ -357,7 +368,13 @@ class StartupRun:
                         # safety net of the harness: if everything is blocked for ever the virtual clock
                         # jumps here instead of the process hanging
                         with anyio.move_on_after(10.0 ** 8) as guard:
-                            root = await start_component(self.classes[0], {}, timeout=self.case["timeout"] * TICK)
+                            if self.case.get("no_timeout"):
+                                # the documented way to switch the time limit off (a caller's own, far-away limit
+                                # stands in for "never" so that a stuck tree ends the run the same way)
+                                with anyio.fail_after(self.case["timeout"] * TICK):
+                                    root = await start_component(self.classes[0], {}, timeout=None)
+                            else:
+                                root = await start_component(self.classes[0], {}, timeout=self.case["timeout"] * TICK)
                         if guard.cancelled_caught:
                             outcome = {"k": "hang"}
                             self.log("raised", outcome)
